@@ -88,11 +88,21 @@ def gen(seed, tier, scale):
         rng = case_rng(seed, ID, idx)
         yield idx, mark_case(rng)
         idx += 1
-    for preset, tbl in (("negra", transformconst.HEAD_RULES_NEGRA), ("ptb", transformconst.HEAD_RULES_PTB)):
+    import json as _json
+    import os as _os
+    pinned = _json.load(open(_os.path.join(_os.path.dirname(_os.path.dirname(_os.path.abspath(__file__))), "pinned_head_rules.json")))
+    for preset, tbl in (("negra", pinned["negra"]), ("ptb", pinned["ptb"])):
         for parent in tbl:
             listed = sorted(set(c for (_, p) in tbl[parent] for c in p.split()))
             pool = listed + ["zz", "yy"]
-            per = (6 if tier == "quick" else 60) * scale
+            # every listed category of every entry once as the only listed child, not in first position
+            for cat in listed:
+                rng = case_rng(seed, ID, idx)
+                cats = [rng.choice(["zz", "yy"]) for _ in range(rng.randint(1, 2))] + [cat] + \
+                    [rng.choice(["zz", "yy"]) for _ in range(rng.randint(0, 1))]
+                yield idx, rule_case(rng, preset, parent, cats)
+                idx += 1
+            per = (3 if tier == "quick" else 40) * scale
             for _ in range(per):
                 rng = case_rng(seed, ID, idx)
                 k = rng.randint(1, 4)
